@@ -376,6 +376,59 @@ def run(chk, rng, thorough):
     chk.sample({"iocb_plan": traces[-1]["plan"], "faults": traces[-1]["faults"], "final": traces[-1]["evs"][-1]["s"] if traces[-1]["evs"] else None})
     validate(chk, traces)
     chk.extra["iocb_runs"] = len(traces)
+    run_many_on_library_scheduler(chk, rng, 3000 if thorough else 500)
+
+
+def run_many_on_library_scheduler(chk, rng, n):
+    """Several requests outstanding at once, each with its APDU timer and an IOCB timeout of another length, some peers
+    answering (their timers are cancelled from the middle of the task heap), some silent -- and this time the LIBRARY's
+    scheduler decides what runs when (core.run_once at each instant, the clock jumps to the deadline its heap reports).
+    TSM.tla's timer semantics for an unsegmented request to a silent peer: retry k goes out at k * Tapdu, the local abort
+    comes at (Retries + 1) * Tapdu -- not later because other timers are pending (BoundedTime)."""
+    bad = 0
+    for i in range(n):
+        npeers = rng.randint(2, 8)
+        dests = list(range(10, 10 + npeers))
+        retries, tapdu = rng.choice([(1, 3000), (3, 3000), (2, 2000)])
+        answer = {d: rng.random() < 0.5 for d in dests}
+        rig = Rig(dests, retries=retries, tapdu=tapdu)
+        done = {}
+        order = list(dests)
+        rng.shuffle(order)
+        try:
+            with watchdog(30):
+                for d in order:
+                    req = ReadPropertyRequest(objectIdentifier=("analogValue", 1), propertyIdentifier="presentValue", destination=Address(d))
+                    iocb = IOCB(req)
+                    iocb.set_timeout(rng.choice([20, 60, 300]))
+                    iocb.add_callback(lambda io, d=d: done.setdefault(d, (int(round(vt.now * 1000)), io.ioError is None)))
+                    rig.c.app.request_io(iocb)
+                for _ in range(100000):
+                    vt.step_all()
+                    if rig.net:
+                        octets, at, src, dst, nn, k = rig.net.pop(0)
+                        node = rig.c if dst == 1 else rig.servers.get(dst)
+                        if node is rig.c or answer.get(dst):
+                            node.receive(octets, Address(src))
+                        continue
+                    nd = vt.next_deadline()
+                    if nd is None or len(done) == len(dests) or nd > 400:
+                        break
+                    vt.now = max(vt.now, nd)
+        except Hang:
+            chk.violation("Terminates", {"path": "iocb-many"}, {"peers": answer, "retries": retries, "tapdu": tapdu}, None)
+            continue
+        want = {d: ((0, True) if answer[d] else ((retries + 1) * tapdu, False)) for d in dests}
+        chk.case(("many", i), nontrivial=True, n=len(dests))
+        if done != want:
+            bad += 1
+            late = {d: {"got": done.get(d), "want": want[d]} for d in dests if done.get(d) != want[d]}
+            chk.violation("BoundedTime", {"path": "iocb-many", "what": "outcome not at the instant the timers prescribe"},
+                          {"answering": answer, "retries": retries, "apdu_timeout_ms": tapdu, "submitted_in_order": order,
+                           "outcomes_that_differ (ms, acknowledged)": late}, None)
+        else:
+            chk.traces_validated += 1
+    chk.extra["many_on_library_scheduler"] = {"runs": n, "differing": bad}
 
 
 USHAPES = [[(0, 2, "c"), (0, 2, "d")], [(0, 2, "c"), (0, 2, "u"), (0, 2, "c")], [(0, 2, "c"), (0, 2, "c"), (0, 2, "d"), (0, 3, "d")],
